@@ -51,7 +51,16 @@ Report(gap) ==
   /\ IF seen THEN AddSample(gap) ELSE AddSample(B)
   /\ seen' = TRUE
 
-Next == \E gap \in Nat : gap >= 1 /\ Report(gap)
+\* the level of a peer without a window is asked for: the query is its first arrival
+FirstQuery == ~seen /\ AddSample(B) /\ seen' = TRUE
+
+\* the peer's window is discarded
+Remove ==
+  /\ seen
+  /\ buf' = [i \in Slots |-> 0]
+  /\ index' = 0 /\ isFull' = FALSE /\ sum' = 0 /\ seen' = FALSE
+
+Next == (\E gap \in Nat : gap >= 1 /\ Report(gap)) \/ FirstQuery \/ Remove
 
 Size == IF isFull THEN W ELSE index
 SumBuf == ApaFoldSet(LAMBDA acc, i : acc + buf[i], 0, {i \in Slots : i < Size})
